@@ -373,6 +373,25 @@ def r5(idx, rep):
                 bad = bad or f"{mism}/{nsets} argsets mismatch: an error is signalled although one argset matched"
     rep.check(bad is None, "R5", f"{fa.file}::Args.handle_errors_if table", bad or "", K.where(fa, fa.node))
     encoder_total(idx, rep, "R5")
+    import_rehomes(idx, rep, "R5")
+
+
+def import_rehomes(idx, rep, rid):
+    """import(): the imported expression *and* all its descendants are re-homed on the importing matcher — Expression.matches and
+    Expression.handle_errors_if reach the csvpath (policy, validation-mode, collector, printers) through self.matcher, so a component left
+    on the throw-away matcher reports its errors to a discarded csvpath"""
+    fi = idx.method("Import", "_set_matcher")
+    rep.analysed(fi)
+    tree = {"E.children": [Obj("c1"), Obj("c2")], "c1.children": [Obj("c11")], "c2.children": [], "c11.children": [Obj("c111")], "c111.children": [],
+            "self.matcher": Obj("IMPORTER")}
+    for n in ("E", "c1", "c2", "c11", "c111"):
+        tree[f"{n}.matcher"] = Obj("THROWAWAY")
+    ps = Interp(idx, types={"self": "Import"}, unknown_calls="residual").run_all(fi, args={"e": Obj("E")}, store=tree)
+    left = []
+    if len(ps) == 1 and ps[0].result[0] == "return":
+        left = [n for n in ("E", "c1", "c2", "c11", "c111") if ps[0].final_store.get(f"{n}.matcher") != Obj("IMPORTER")]
+    rep.check(len(ps) == 1 and ps[0].result[0] == "return" and not left, rid, f"{fi.file}::Import._set_matcher re-homes the whole imported expression",
+              f"left on the throw-away matcher: {left or [p.result for p in ps]} (E is the imported expression, c* its descendants)", K.where(fi, fi.node))
 
 
 def encoder_total(idx, rep, rid):
